@@ -264,7 +264,17 @@ func schedMain(args []string) int {
 					return nil
 				}
 				rec := schedRec{Hist: hid, Index: i, Mode: "fault", Writes: len(names), Fail: F, Problems: []string{}}
-				res := w.Exec(op)
+				// a persist whose write fails must still come back (with the error): give it 30 s
+				resCh := make(chan runner.Result, 1)
+				go func() { resCh <- w.Exec(op) }()
+				var res runner.Result
+				select {
+				case res = <-resCh:
+				case <-time.After(30 * time.Second):
+					rec.Problems = append(rec.Problems, "MakeRoot neither returned a root nor reported the failed write within 30 s: it is stuck")
+					enc.Encode(rec)
+					continue
+				}
 				if res.Outcome == "ok" {
 					// legitimate only if the failing names were never attempted
 					attempted := false
